@@ -1,5 +1,6 @@
 SPECIFICATION Spec
-CONSTANTS Tri = {"run", "fill", "compute", "request", "fill_into", "m"}
+CONSTANTS FalsyAll = TRUE
+  Tri = {"run", "fill", "compute", "request", "fill_into", "m"}
 INVARIANT AsDocumented
 INVARIANT NamedNeverCasts
 INVARIANT FillComputeBinds
